@@ -63,7 +63,7 @@ One(b) == IF b THEN 1 ELSE 0
 JudgeCounters(r, cache) ==
   LET c == r.counters IN
   IF Cnt(c, "DNS_queries") # 1 THEN "C19:query-counter"
-  ELSE IF r.typekeys # 1 THEN "C19:type-counter"
+  ELSE IF r.typekeys # 1 \/ r.typekeynamed # 1 THEN "C19:type-counter"
   ELSE IF ~r.written THEN "ok"                                          \* a bare failure: not a composed response
   ELSE IF r.nlog # 1 \/ r.nlogfailed # 0 THEN "C19:logger-calls"
   ELSE IF ~r.logsame THEN "C19:logged-message-differs"
